@@ -27,8 +27,19 @@ class AsyncioRunner(BaseRunner):
         self.asyncio_loop.call_soon_threadsafe(self._setup_payload, payload)
 
     def run_payload(self, payload: Callable[[], Coroutine]):
-        future = asyncio.run_coroutine_threadsafe(payload(), self.asyncio_loop)
-        return future.result()
+        # An exception of the payload travels as a value: chaining the asyncio future to
+        # the concurrent one would replace e.g. a TimeoutError by a fresh copy.
+        async def capture():
+            try:
+                return await payload(), None
+            except Exception as failure:
+                return None, failure
+
+        future = asyncio.run_coroutine_threadsafe(capture(), self.asyncio_loop)
+        result, failure = future.result()
+        if failure is not None:
+            raise failure
+        return result
 
     def _setup_payload(self, payload: Callable[[], Awaitable]):
         if self._payload_failure.done():
